@@ -41,7 +41,6 @@ AD_ASSUMPTIONS = [
 ]
 
 CURVE_UNCOVERED = [
-    "CurveDF::try_new / NodesTimestamp::from / sort_keys: 'the order in which nodes are supplied does not matter' rests on the assumed contract of IndexMap::sort_keys (sorted, same pairs); the uniqueness of the sorted arrangement is not proved as a lemma",
     "sensitivities (gradient/Hessian) of the log-linear and linear-zero-rate rules at Dual/Dual2: only their VALUES are under contract; the linear rule has exact sensitivities",
     "the log-cubic (spline) interpolator and the null interpolator",
 ]
@@ -152,7 +151,8 @@ CHECKS = {
         "level": "proof",
         "assumptions": DUAL_ASSUMPTIONS + [
             "R5: generic functions are verified as monomorphic copies (index_left at i64, the closed forms at f64/Dual/Dual2), the instantiations the crate uses",
-            "node keys are strictly increasing (established by CurveDF::try_new through sort_keys; sort_keys is an assumed indexmap contract)",
+            "IndexMap::sort_keys (same pairs as a multiset, keys strictly increasing), IndexMap::from_iter / into_iter (pairs in order; the keys of a map are pairwise distinct and distinct date-times have distinct timestamps) are assumed indexmap / chrono contracts; CurveDF::try_new, From<Nodes> for NodesTimestamp and NodesTimestamp::sort_keys themselves are under contract and 'the order of supplied nodes does not matter' is the lemma lemma_node_order_irrelevant over them",
+            "`id.to_string()` is a declared substitution (vx_str_to_string); strings are opaque tokens",
             "timestamps: `date.and_utc().timestamp()` = 86400 * day number (midnight assumption); `as f64` on i64 keys is exact in the real model",
         ],
         "uncovered": CURVE_UNCOVERED,
@@ -162,7 +162,7 @@ CHECKS = {
         "level": "proof",
         "assumptions": DUAL_ASSUMPTIONS + AD_ASSUMPTIONS,
         "uncovered": CURVE_UNCOVERED + [
-            "variable NAMING '<curve id><i>' (string formatting in get_variable_tags) is outside Verus",
+            "variable NAMING '<curve id><i>': get_variable_tags is under contract as 'tag i = concat(id, decimal(i)) with i the list position', but string concatenation and decimal rendering themselves are two uninterpreted functions (String is an opaque token in the units); the actual characters are exercised by the bounded probe only (curves of up to 24 nodes)",
         ],
     },
     "C14": {
@@ -176,12 +176,12 @@ CHECKS = {
     },
     "C06": {
         "units": ["calendars"],
-        "kani": {"quick": ["chrono_view_is_days_from_civil", "chrono_from_ymd_validity"], "thorough": ["chrono_view_is_days_from_civil", "chrono_from_ymd_validity", "chrono_add_days", "chrono_sub_days"]},
+        "kani": {"quick": ["chrono_view_is_days_from_civil", "chrono_from_ymd_validity", "chrono_weekday_try_from_u8"], "thorough": ["chrono_view_is_days_from_civil", "chrono_from_ymd_validity", "chrono_add_days", "chrono_sub_days", "chrono_weekday_try_from_u8"]},
         "level": "proof",
         "assumptions": CHRONO_ASSUMPTIONS + [
             "get_calendar_by_name(name) returns the calendar named_cal(name) or an error when the name is unknown (assumed contract; its tables and wiring are decided by C07)",
             "str::to_lowercase and str::split are uninterpreted functions of the character sequences (shim in contracts/calendars.vx); split yields at least one piece",
-            "HashSet<Weekday>::contains / IndexSet<NaiveDateTime>::contains are membership tests (assumed); holidays are midnights",
+            "HashSet<Weekday>::contains / IndexSet<NaiveDateTime>::contains are membership tests, HashSet::from_iter / IndexSet::from_iter hold exactly the yielded elements, chrono's Weekday::try_from(u8) maps 0..=6 to Mon..Sun and refuses everything else (Kani harness chrono_weekday_try_from_u8, complete over u8); holidays are midnights; Cal::new itself is under contract (stores exactly the given holidays and week mask, for week masks 0-6)",
             "`impl PartialEq<T> for X` is rendered as the local trait CalEq<T> with the same method bodies (R7)",
             "Option::map_or, Vec::iter + all/any/zip as eager iterators (shim/collections.rs)",
         ],
@@ -217,12 +217,14 @@ CHECKS = {
         "units": ["fx"],
         "level": "proof",
         "assumptions": CHRONO_ASSUMPTIONS + DUAL_ASSUMPTIONS + [
-            "create_fx_array (the graph fill-in, C09's core) is an ASSUMED deterministic function fx_build(currencies, quotes, order): it fails or succeeds independently of the order, returns a square matrix of the requested order, and its values do not depend on the order (axiom_fx_build); the variable names fx_<pair> and the +-cross/quote sensitivities it produces are NOT verified",
+            "create_fx_array as CALLED by try_new / update / set_ad_order is an ASSUMED deterministic function fx_build(currencies, quotes, order): it fails or succeeds independently of the order, returns a square matrix of the requested order, and its values do not depend on the order (axiom_fx_build)",
+            "create_fx_array's BODY is under a second, relational contract (create_fx_array_lift): every quote is lifted by set_order_clone (C18's table) with the single name fx_tag(pair), converted by the From<&Number> conversion of the requested order, and the matrix of that order is seeded and filled; the two generic callees appear as `_g` stand-ins (assumed deterministic; success depends on the edge matrix only) whose bodies are the ones proved at T := Rg under C09; `format!(\"fx_{}\", pair)` is an uninterpreted function of the pair (declared substitution)",
             "derived Clone of FXRate / NumberArray2 / IndexSet<Ccy> is structural; Ccy (interned string handle) is equal exactly when the names are equal",
             "IndexSet<Ccy> insert / get_index_of / index, Array2::from_shape_vec / into_iter, Vec::clone_from, Iterator fold / enumerate / all / any: shim contracts",
         ],
         "uncovered": [
-            "sensitivity clauses (variable naming fx_xxxyyy, +-cross/quote, second order): inside create_fx_array, assumed",
+            "sensitivity VALUES (+-cross/quote on the path, 0 elsewhere, second order): follow from C01/C02 operator contracts applied along the fill-in but are not composed into one theorem; explored by the bounded probe (probe_fx: plain and own-variable quotes, first and second order)",
+            "the characters of the name fx_xxxyyy (formatting macro): bounded probe only",
             "Python wrappers (fx_py.rs)",
         ],
     },
